@@ -453,6 +453,10 @@ pub fn replay_exhaustive(case: &serde_json::Value) -> bool {
 /// a token that may match the empty text where a component is counted: a zero-or-more wildcard
 /// or an optional repetition (the recorded finding is about exactly these)
 pub fn has_possibly_empty_token(seq: &[Node]) -> bool {
+    // the empty expression is the empty literal
+    if seq.iter().all(|n| n.is_flag()) {
+        return true;
+    }
     seq.iter().any(|n| match &n.kind {
         Kind::Zom(_) => true,
         Kind::Rep { body, bounds } => bounds.values().map_or(false, |(lo, _)| lo == 0) || has_possibly_empty_token(body),
